@@ -1,5 +1,5 @@
 (** C06 — results are independent of resolver scheduling; mutation roots run serially. *)
-From GV Require Import Base.Prelude Base.Interleave Model.Exec Model.Conc Model.MutSerial Proofs.ExecProofs Proofs.ConcProofs Proofs.MutSerialProofs.
+From GV Require Import Base.Prelude Base.Interleave Model.Exec Model.Conc Model.MutSerial Proofs.ExecProofs Proofs.ConcProofs Proofs.MutSerialProofs Base.Threads Model.ElemPanic Proofs.ElemPanicProofs.
 Open Scope list_scope.
 
 (** For ANY interleaving of the atomic actions (append an error under the mutex, publish a slot, bump the
@@ -51,3 +51,27 @@ Theorem C06_concurrent_roots_refuted :
   concurrent_trace string bodies tr /\ grouped string 2 tr = false.
 Proof. exact concurrent_not_grouped_witness. Qed.
 Print Assumptions C06_concurrent_roots_refuted.
+
+
+(** ** list element goroutines, some of which panic inside generated code (Model.ElemPanic): any two interleavings
+    that reach the join leave the same array, the same errors per element and the same number of recover-hook calls *)
+Theorem C06_list_element_panics_schedule_independent : forall plan tr1 tr2 s1 s2 j1 j2,
+  erun as_written_elems (einit plan) tr1 = Some s1 -> e_joined s1 = Some j1 ->
+  erun as_written_elems (einit plan) tr2 = Some s2 -> e_joined s2 = Some j2 ->
+  j1 = j2 /\ map el_errs (e_els s1) = map el_errs (e_els s2) /\ e_recovers s1 = e_recovers s2.
+Proof.
+  intros plan tr1 tr2 s1 s2 [r1 sl1] [r2 sl2] R1 J1 R2 J2.
+  destruct (elems_contained_lemma _ _ _ _ _ R1 J1) as (-> & -> & E1 & C1 & _).
+  destruct (elems_contained_lemma _ _ _ _ _ R2 J2) as (-> & -> & E2 & C2 & _).
+  repeat split; congruence.
+Qed.
+Print Assumptions C06_list_element_panics_schedule_independent.
+
+(** Refuted for the closure of the pinned commit (recover handler registered before [Done], handler resets the whole
+    result): one schedule passes the join with a slot unset, another answers an empty list with two errors. *)
+Theorem C06_pinned_element_closure_refuted :
+  let v := {| v_done_last := false; v_own_slot := false |} in
+  (exists s sl, erun v (einit [true; false]) [EL 0; EL 0; EL 1; EL 1; EL 1; EJoin]%nat = Some s /\ e_joined s = Some (false, sl) /\ In Unset sl) /\
+  (exists s sl, erun v (einit [true; false]) [EL 0; EL 0; EL 0; EL 1; EL 1; EL 1; EJoin]%nat = Some s /\ e_joined s = Some (true, sl) /\ e_recovers s = 2%nat).
+Proof. split; [exact pinned_element_closure_witness|exact pinned_element_closure_witness2]. Qed.
+Print Assumptions C06_pinned_element_closure_refuted.
